@@ -1094,12 +1094,18 @@ fn c10(ctx: &CaseCtx, obs: &CaseObs, full: &Outcome, exp: Option<&Expect>, l: &m
             v.sort();
             v.dedup();
         }
-        if de != te || du != tu {
+        if de.is_empty() && du.is_empty() && !(te.is_empty() && tu.is_empty()) {
+            // the message wording is not one this monitor can read lists from; nothing to compare
+            l.count("c10_display_lists_not_recognised");
+        } else if de != te || du != tu {
+            l.count("c10_display_lists_compared");
             l.violation(
                 "unclassified/C10/rendered-lists",
                 format!("Display lists expected {:?} unexpected {:?}, the tracker holds expected {:?} unexpected {:?}", de, du, te, tu),
                 ctx.witness(json!({"display": e.display})),
             );
+        } else {
+            l.count("c10_display_lists_compared");
         }
     }
     // hook trace vs model trace: every tracked attempt of the real run is one the model also made;
